@@ -3,6 +3,8 @@
  E2  every write into fixed-size storage on the reader/writer path is bounded (interval analysis of
      indices and pointer offsets, maximal expansion of library writers, provenance of string operands)
  E3  every loop that pulls characters from a stream leaves when the stream is stuck (EOF / fail)
+ E3b with a good stream, every loop that looks at the next character consumes at least one character per
+     iteration (case split over the characters the loop and its consumers distinguish; consumers summarised)
  R3  no process-terminating call is reachable from the reader/writer entry points beyond the frozen list
 """
 import json
@@ -53,6 +55,15 @@ CFG = {
         "E3|src/cllazyfile/lazyFileReader.cc|lazyFileReader::initP21|loop(ignore)|A":
             "at end of file needKW() returns false for both non-empty ASCII keywords (get() yields EOF), so one of the "
             "two `break`s is taken; the inner whitespace loop tests good()",
+    },
+    "e3b_exceptions": {
+        "E3b|src/cllazyfile/sectionReader.cc|sectionReader::CreateSubSuperInstance|lookahead-loop":
+            {"reason": "getDelimitedKeyword() consumes nothing only when it returns an empty keyword, and the empty-keyword branch "
+                       "skips one character with get(); the analysis does not correlate the returned string with empty()",
+             "only_lookahead": ["/"]},
+        "E3b|src/cllazyfile/lazyFileReader.cc|lazyFileReader::initP21|lookahead-loop":
+            "needKW() is only called with the non-empty literals \"END-ISO-10303-21;\" and \"DATA\": its first iteration always "
+            "consumes one character through get(), and both failing calls break out of the loop",
     },
     "terminators_allowed": json.load(open(os.path.join(os.path.dirname(__file__), "..", "tables", "c05_terminators.json"))),
 }
@@ -118,5 +129,7 @@ def run(prog, res, tier):
     res.floor("E2.bounded_write", "library writers into fixed arrays", ns.get("lib", 0), 40)
     n3 = memsafe.run_e3(prog, res, CFG, reachable)
     res.floor("E3.stuck_stream_exit", "stream-driven loops", n3, 35)
+    n3b = memsafe.run_e3b(prog, res, CFG, reachable)
+    res.floor("E3b.progress", "look-ahead driven loops", n3b, 12)
     side_conditions(prog, res)
     memsafe.run_terminators(prog, res, CFG, reachable)
